@@ -329,6 +329,27 @@ def containingRect (c : CBBox) : Rect :=
   else
     ⟨c.posX + c.ml + c.bl, c.posY + c.mt + c.bt, c.width + c.pl + c.pr, c.height + c.pt + c.pbot⟩
 
+/-- The heights of a containing block that `block_container_layout` knows of: `new_box.height` once its children
+are laid out (the specified height, or the content's), and the used `min-height` / `max-height` (`none` = none). -/
+structure CBHeights where
+  content : Rat
+  minH : Rat
+  maxH : Option Rat
+  deriving Repr, DecidableEq, Inhabited
+
+/-- `new_box.height = max(min(new_box.height, new_box.max_height), new_box.min_height)`: the used height. -/
+def CBHeights.used (c : CBHeights) : Rat :=
+  max (match c.maxH with
+    | some m => min c.content m
+    | none => c.content) c.minH
+
+/-- The height of the box at the moment its absolutely positioned children are laid out.  A `position: relative`
+block lays them out inside `block_container_layout`, *before* the min/max clamp at the end of that function
+(finding abs-cb-height-before-min-max); an absolutely positioned block lays them out in `absolute_block`, after
+`block_container_layout` has returned the clamped height. -/
+def cbHeightAtLayout (relative : Bool) (c : CBHeights) : Rat :=
+  if relative then c.content else c.used
+
 /-- Computed style of an absolutely positioned non-replaced block (content-box sizing). -/
 structure AbsStyle where
   left : Dim
